@@ -152,6 +152,34 @@ pub fn search(seed: u64, n: u64) {
         stats.count(&format!("corpus.{}", kind));
         check_path(&mut stats, &mut rng, p, kind, 200);
     }
+    // closed paths with a section that returns to its own start (teardrops), alone and as a lobe of a polygon
+    let mut rng_t = Rng(seed ^ 0x7EA2);
+    for k in 0..(4 + n / 200) {
+        let tip = Coord2(rng_t.r(20.0, 80.0), rng_t.r(20.0, 80.0));
+        let a = rng_t.r(0.0, std::f64::consts::TAU);
+        let (r, spread) = (rng_t.r(20.0, 60.0), rng_t.r(0.4, 1.0));
+        let c1 = tip + Coord2((a - spread).cos(), (a - spread).sin()) * r;
+        let c2 = tip + Coord2((a + spread).cos(), (a + spread).sin()) * r;
+        let p: P = if k % 2 == 0 { (tip, vec![(c1, c2, tip)]) } else {
+            // a triangle whose first vertex carries a teardrop lobe pointing away from it
+            let (v1, v2) = (tip + Coord2((a + 2.5).cos(), (a + 2.5).sin()) * r, tip + Coord2((a - 2.5).cos(), (a - 2.5).sin()) * r);
+            (tip, vec![(c1, c2, tip), (tip + (v1 - tip) * 0.33, tip + (v1 - tip) * 0.66, v1), (v1 + (v2 - v1) * 0.33, v1 + (v2 - v1) * 0.66, v2), (v2 + (tip - v2) * 0.33, v2 + (tip - v2) * 0.66, tip)])
+        };
+        stats.count("kind.teardrop");
+        stats.case(&format!("teardrop {:?}", p), true);
+        check_path(&mut stats, &mut rng_t, &p, "teardrop", 100);
+    }
+    // long thin triangles with a vertex 0.3 .. 1 from the box's max corner: the ray crosses the long edge at 0.01 .. 0.06 degrees (shallow but
+    // transversal), 0.1 clear of every vertex
+    for _ in 0..(4 + n / 200) {
+        let l = rng_t.r(600.0, 1500.0);
+        let near = Coord2(l - rng_t.r(0.3, 1.0), l);
+        let tri = polygon(&[Coord2(0.0, 0.0), near, Coord2(l, l * rng_t.r(0.2, 0.6))]);
+        let tri = redirect(&mut rng_t, &tri);
+        stats.count("kind.sliver_triangle");
+        stats.case(&format!("sliver {:?}", tri), true);
+        check_path(&mut stats, &mut rng_t, &tri, "sliver_triangle", 100);
+    }
     for _ in 0..n {
         let s = rand_shape(&mut rng);
         let p = redirect(&mut rng, &s.path);
